@@ -52,6 +52,13 @@ def di(a) -> str:
 
 
 _TESTS = {}
+DISP = []      # (s-expression of the node, filter_display_type of the real object)
+
+
+def note_disp(sx: str, obj) -> None:
+    from nunavut.lang.html import filter_display_type
+    if len(DISP) < 400:
+        DISP.append([sx, filter_display_type(obj)])
 
 
 def test(name: str, x) -> bool:
@@ -68,6 +75,7 @@ def ty(t) -> str:
     if test('ArrayType', t):
         e = t.element_type
         inner = ty(e) if test('CompositeType', e) else '(prim %s)' % enc(str(e))
+        note_disp(dt(t), t)
         return '(arr %s %s %s %s)' % (enc(str(e)), b(test('deprecated', t)), dt(t), inner)
     assert isinstance(t, pydsdl.CompositeType), t
     attrs = []
@@ -76,6 +84,7 @@ def ty(t) -> str:
             attrs.append('(nested %s %s %s)' % (enc(a.name), enc(a.doc), ty(a.data_type)))
         else:
             mx = a.data_type.bit_length_set.max or 0
+            note_disp(di(a), a)
             attrs.append('(plain %s %s %s %s)' % (di(a), b(test('Field', a)), b(mx % 8 == 0), enc(a.doc)))
     return '(comp %s %d %d %s %s %s %s %s %s %s %s %s%s)' % (
         enc(t.full_name), t.version[0], t.version[1], enc(t.root_namespace), enc(t.full_namespace), b(t.has_parent_service),
@@ -128,6 +137,8 @@ def run_case(work: str, case: dict) -> dict:
             tree = build_namespace_tree(types, os.path.join(dsdl, r), out, lctx)
             sexps.append(ns(tree))
         res['site'] = '(site %s)' % ' '.join(sexps)
+        res['disp'] = list(DISP)
+        del DISP[:]
     except Exception:  # noqa
         res['err'] = (res['err'] or '') + ' dump failed: ' + traceback.format_exc()[-1500:]
     return res
